@@ -169,7 +169,9 @@ func (p *Progress) Add(total int64, filler BarFiller, options ...BarOption) (*Ba
 			}
 			ps.queueBars[key] = bar
 		} else {
-			if bs.waitBar != nil {
+			if bs.waitBar != nil && bs.waitBar.priority >= ps.popPriority {
+				// takes the place of its predecessor, unless that one was popped
+				// out: its place is then among the finished bars
 				bar.priority = bs.waitBar.priority
 			}
 			ps.hm.push(bar, true)
